@@ -367,4 +367,341 @@ Proof.
   split; [reflexivity|]. split; [reflexivity|]. split; [|exact Hm2].
   symmetry. apply mread_ext. exact Hm2.
 Qed.
+
+(* ================================================================ writes *)
+Lemma le4_firstn x (l : list Z) : firstn 4 (le_bytes 4 x ++ l) = le_bytes 4 x.
+Proof. rewrite <- (le_bytes_length 4 x) at 1. apply firstn_app_exact. Qed.
+
+Lemma le4_skipn x (l : list Z) : skipn 4 (le_bytes 4 x ++ l) = l.
+Proof. rewrite <- (le_bytes_length 4 x) at 1. apply skipn_app_exact. Qed.
+
+Lemma serve_write_pkt st m v j x l :
+  0 <= x < 2 ^ 32 ->
+  serve st m (OSend v ChWrite (j :: le_bytes 4 x ++ l)) =
+  if st =? 0 then (mwrite m j x l, [(v, ChWrite, j :: le_bytes 4 x ++ [0])])
+  else (m, [(v, ChWrite, j :: le_bytes 4 x ++ [st])]).
+Proof.
+  intros H. cbn [serve]. rewrite le4_firstn, le4_skipn, (le4_val _ H). destruct (st =? 0); reflexivity.
+Qed.
+
+Lemma serve_all_wpkt plan m lg k v j x l t :
+  0 <= x < 2 ^ 32 -> (t = [] \/ t = [ORet true]) ->
+  serve_all plan m lg k (OSend v ChWrite (j :: le_bytes 4 x ++ l) :: t) =
+  if plan k =? 0 then (mwrite m j x l, lg ++ [(v, ChWrite, j :: le_bytes 4 x ++ [0])], S k)
+  else (m, lg ++ [(v, ChWrite, j :: le_bytes 4 x ++ [plan k])], S k).
+Proof.
+  intros H Ht. cbn [serve_all is_send]. rewrite (serve_write_pkt _ _ _ _ _ _ H).
+  destruct (plan k =? 0); destruct Ht as [-> | ->]; reflexivity.
+Qed.
+
+Lemma write_reply_step c i x st tl w :
+  c_leaked c = false -> wq_get i (c_writes c) = Some [w] ->
+  step true c (EPkt ChWrite (i :: le_bytes 4 x ++ st :: tl)) =
+  if negb (wf_eventb (EPkt ChWrite (i :: le_bytes 4 x ++ st :: tl))) then (c, [OOutOfDomain]) else
+  if st =? 0 then
+    if le_val (le_bytes 4 x) =? w_cur w then
+      match w_rest w with
+      | [] => (set_writes c (wq_set i [] (c_writes c)), [OWriteOk (w_uid w) (w_id w) (w_addr w)])
+      | _ :: _ =>
+          (set_writes c (wq_set i [mkW (w_uid w) (w_id w) (w_addr w) (w_cur w + w_add w)
+                                       (skipn WCHUNK (w_rest w)) (zlen (firstn WCHUNK (w_rest w)))] (c_writes c)),
+           [OSend (w_uid w) ChWrite (w_id w :: le_bytes 4 (w_cur w + w_add w) ++ firstn WCHUNK (w_rest w))])
+      end
+    else (c, [])
+  else (set_writes c (wq_set i [] (c_writes c)), [OWriteFail (w_uid w) (w_id w) (w_addr w)]).
+Proof.
+  intros L G. unfold step. destruct (negb _); [reflexivity|].
+  unfold do_write_reply. rewrite pl_len, pl_addr, pl_status, G, L.
+  destruct (st =? 0); [|reflexivity]. destruct (_ =? w_cur w); [|reflexivity].
+  unfold w_start, w_advance. cbn [w_uid w_id w_addr w_cur w_rest w_add].
+  destruct (w_rest w); reflexivity.
+Qed.
+
+Lemma write_first_step c i a d fl :
+  write_idle c i -> c_leaked c = false -> wf_eventb (EWrite i a d fl) = true ->
+  step true c (EWrite i a d fl) =
+  (mkC (c_reads c) (wq_set i [mkW (c_next c) i a a (skipn WCHUNK d) (zlen (firstn WCHUNK d))] (c_writes c))
+       false (c_next c + 1),
+   [OSend (c_next c) ChWrite (i :: le_bytes 4 a ++ firstn WCHUNK d); ORet true]).
+Proof.
+  intros Hidle L Ewf. unfold step. rewrite Ewf. cbn [negb]. unfold do_write. rewrite L.
+  destruct Hidle as [-> | ->]; destruct fl; reflexivity.
+Qed.
+
+Lemma chunk_pos (l : list Z) : skipn WCHUNK l = [] \/ 0 < zlen (firstn WCHUNK l).
+Proof.
+  destruct l as [|b t]; [left; reflexivity|right]. unfold WCHUNK, zlen. cbn [firstn length]. lia.
+Qed.
+
+Lemma idle_no_wu g c i u : RC g c -> g u = i -> write_idle c i -> no_wu u c.
+Proof.
+  intros [L [_ [Wn Ww]]] Hg Hidle j q w Hin Hw E.
+  destruct (Ww j q w Hin Hw) as [_ [_ B]]. rewrite E, Hg in B. subst j.
+  pose proof (wq_in_get _ _ _ Wn Hin) as G.
+  destruct Hidle as [H|H]; rewrite H in G; [discriminate G|]. injection G as <-. destruct Hw.
+Qed.
+
+Lemma idle_run plan i mid : forall g s s2 tr,
+  RS g s -> write_idle (s_cl s) i -> Forall (no_write_to i) mid ->
+  sys_run true plan s mid = (s2, tr) -> forall x, s_mem s2 i x = s_mem s i x.
+Proof.
+  induction mid as [|e t IH]; intros g s s2 tr HS Hidle Hnw R x; cbn [sys_run] in R.
+  - injection R as <- <-. reflexivity.
+  - destruct (sys_step true plan s e) as [s1 o1] eqn:St.
+    destruct (sys_run true plan s1 t) as [s3 o3] eqn:Rt. injection R as <- <-.
+    inversion Hnw as [|? ? Hn1 Hn2]; subst.
+    destruct (reach_step _ _ _ _ _ _ HS St) as [g1 [HS1 _]].
+    destruct (idle_step _ _ _ _ _ _ _ HS Hidle Hn1 St) as [Hidle1 Hm1].
+    rewrite (IH _ _ _ _ HS1 Hidle1 Hn2 Rt x). apply Hm1.
+Qed.
+
+Section WriteExact.
+  Variables (plan : nat -> Z) (i a u : Z) (dd : list Z) (M0 : memory).
+  Hypotheses (Ha : 0 <= a < 2 ^ 32) (Had : a + zlen dd <= 2 ^ 32).
+
+  Definition wgood (cur : Z) (applied : bool) (d' : list Z) : Prop :=
+    exists x st tl, d' = i :: le_bytes 4 x ++ st :: tl /\
+      (st <> 0 \/ (0 <= x < 2 ^ 32 /\ (x < cur \/ (x = cur /\ applied = true)))).
+
+  Definition wpend (s : sys) (w : wreq) (sent chunk : list Z) (applied : bool) : Prop :=
+    wq_get i (c_writes (s_cl s)) = Some [w] /\ w_uid w = u /\ w_addr w = a /\
+    w_cur w = a + zlen sent /\ w_add w = zlen chunk /\ dd = sent ++ chunk ++ w_rest w /\
+    (w_rest w = [] \/ 0 < w_add w) /\
+    (forall x, s_mem s i x = mwrite M0 i a (sent ++ (if applied then chunk else [])) i x) /\
+    forall d', In (u, ChWrite, d') (s_log s) -> wgood (w_cur w) applied d'.
+
+  Definition wbase (g : Z -> Z) (s : sys) : Prop := RS g s /\ g u = i /\ u < c_next (s_cl s).
+
+  Definition winv (s : sys) : Prop :=
+    (exists g, wbase g s) /\
+    ((exists w sent chunk applied, wpend s w sent chunk applied) \/ write_idle (s_cl s) i).
+
+  Definition wdone (s : sys) : Prop :=
+    write_idle (s_cl s) i /\ forall x, s_mem s i x = mwrite M0 i a dd i x.
+
+  Lemma wbase_step g s e s' os :
+    wbase g s -> sys_step true plan s e = (s', os) -> exists g', wbase g' s'.
+  Proof.
+    intros [HS [Hg Hu]] St.
+    destruct (reach_step _ _ _ _ _ _ HS St) as [g' [HS' [A N]]].
+    exists g'. split; [exact HS'|]. split; [rewrite (A _ Hu); exact Hg|lia].
+  Qed.
+
+  Lemma wgood_mono cur ap cur' ap' d' : cur < cur' -> wgood cur ap d' -> wgood cur' ap' d'.
+  Proof.
+    intros Hc [x [st [tl [E H]]]]. exists x, st, tl. split; [exact E|].
+    destruct H as [H|[Hx H]]; [left; exact H|right]. split; [exact Hx|]. left. lia.
+  Qed.
+
+  Ltac unchanged Sc Sv w sent chunk applied P :=
+    injection Sc as <- <-; cbn [serve_all is_send] in Sv; injection Sv as <- <- <-;
+    split; [left; exists w, sent, chunk, applied; exact P|
+            let H := fresh "H" in intros ? ? H; cbn [In] in H; intuition discriminate].
+
+  Lemma wpend_reply g s w sent chunk applied x st tl c' os m' lg' n' :
+    wbase g s -> wpend s w sent chunk applied ->
+    (st <> 0 \/ (0 <= x < 2 ^ 32 /\ (x < w_cur w \/ (x = w_cur w /\ applied = true)))) ->
+    step true (s_cl s) (EPkt ChWrite (i :: le_bytes 4 x ++ st :: tl)) = (c', os) ->
+    serve_all plan (s_mem s) (s_log s) (s_n s) os = (m', lg', n') ->
+    ((exists w' sent' chunk' applied', wpend (mkS c' m' lg' n') w' sent' chunk' applied') \/ write_idle c' i) /\
+    forall i' a', In (OWriteOk u i' a') os -> i' = i /\ a' = a /\ wdone (mkS c' m' lg' n').
+  Proof.
+    intros [[HC HL] [Hg Hu]] P Hgood Sc Sv.
+    pose proof P as [P1 [P2 [P3 [P4 [P5 [P6 [P7 [P8 P9]]]]]]]].
+    destruct HC as [L [_ [Wn Ww]]].
+    destruct (Ww i [w] w (wq_get_in _ _ _ P1) (or_introl eq_refl)) as [_ [Hid _]].
+    rewrite (write_reply_step _ _ _ _ _ _ L P1) in Sc.
+    destruct (negb (wf_eventb _)); [unchanged Sc Sv w sent chunk applied P|].
+    assert (Hidle' : write_idle (set_writes (s_cl s) (wq_set i [] (c_writes (s_cl s)))) i).
+    { right. cbn [set_writes c_writes]. rewrite wq_get_set, Z.eqb_refl. reflexivity. }
+    destruct (st =? 0) eqn:Est.
+    - destruct Hgood as [Hst|[Hx Hpos]]; [lia|].
+      rewrite (le4_val _ Hx) in Sc.
+      destruct (x =? w_cur w) eqn:Ex; [|unchanged Sc Sv w sent chunk applied P].
+      destruct Hpos as [Hlt|[_ Happ]]; [lia|]. subst applied.
+      revert Sc. destruct (w_rest w) as [|b rest] eqn:Er; intros Sc.
+      + injection Sc as <- <-. cbn [serve_all is_send] in Sv. injection Sv as <- <- <-.
+        split; [right; exact Hidle'|].
+        intros i' a' [H|[]]. injection H as _ <- <-.
+        split; [exact Hid|]. split; [exact P3|]. split; [exact Hidle'|].
+        cbn [s_mem]. intros y. rewrite (P8 y), P6, app_nil_r. reflexivity.
+      + assert (Hlen : zlen dd = zlen sent + zlen chunk + zlen (b :: rest)).
+        { rewrite P6 at 1. rewrite !zlen_app. lia. }
+        assert (Hpos : 0 < zlen (b :: rest)) by (unfold zlen; cbn [length]; lia).
+        assert (Hadd : 0 < w_add w) by (destruct P7 as [P7|P7]; [discriminate P7|exact P7]).
+        apply pair_equal_spec in Sc. destruct Sc as [<- <-].
+        rewrite serve_all_wpkt in Sv by (try (left; reflexivity); lia).
+        assert (W : forall ap' : bool,
+          (forall y, m' i y = mwrite M0 i a ((sent ++ chunk) ++ (if ap' then firstn WCHUNK (b :: rest) else [])) i y) ->
+          (forall d', In (u, ChWrite, d') lg' -> wgood (w_cur w + w_add w) ap' d') ->
+          wpend (mkS (set_writes (s_cl s) (wq_set i [mkW (w_uid w) (w_id w) (w_addr w) (w_cur w + w_add w)
+                    (skipn WCHUNK (b :: rest)) (zlen (firstn WCHUNK (b :: rest)))] (c_writes (s_cl s)))) m' lg' n')
+                (mkW (w_uid w) (w_id w) (w_addr w) (w_cur w + w_add w)
+                    (skipn WCHUNK (b :: rest)) (zlen (firstn WCHUNK (b :: rest))))
+                (sent ++ chunk) (firstn WCHUNK (b :: rest)) ap').
+        { intros ap' Hmem Hlog. unfold wpend.
+          cbn [s_cl s_mem s_log set_writes c_writes w_uid w_addr w_cur w_add w_rest].
+          split; [rewrite wq_get_set, Z.eqb_refl; reflexivity|].
+          split; [exact P2|]. split; [exact P3|]. split; [rewrite zlen_app; lia|]. split; [reflexivity|].
+          split; [rewrite P6, <- app_assoc, firstn_skipn; reflexivity|].
+          split; [apply chunk_pos|]. split; [exact Hmem|exact Hlog]. }
+        destruct (plan (s_n s) =? 0) eqn:Ep; injection Sv as <- <- <-.
+        * split; [left; eexists; exists (sent ++ chunk), (firstn WCHUNK (b :: rest)), true; apply W|].
+          -- intros y. rewrite Hid. rewrite <- mwrite_app.
+             replace (w_cur w + w_add w) with (a + zlen (sent ++ chunk)) by (rewrite zlen_app; lia).
+             apply mwrite_ext. exact P8.
+          -- intros d' Hd. apply in_app_or in Hd. destruct Hd as [Hd|[Hd|[]]].
+             ++ apply (wgood_mono (w_cur w) true); [lia|exact (P9 d' Hd)].
+             ++ injection Hd as _ <-. rewrite Hid. exists (w_cur w + w_add w), 0, [].
+                split; [reflexivity|]. right. split; [lia|]. right. split; reflexivity.
+          -- intros i' a' [H|[]]. discriminate H.
+        * split; [left; eexists; exists (sent ++ chunk), (firstn WCHUNK (b :: rest)), false; apply W|].
+          -- intros y. rewrite app_nil_r. exact (P8 y).
+          -- intros d' Hd. apply in_app_or in Hd. destruct Hd as [Hd|[Hd|[]]].
+             ++ apply (wgood_mono (w_cur w) true); [lia|exact (P9 d' Hd)].
+             ++ injection Hd as _ <-. rewrite Hid. exists (w_cur w + w_add w), (plan (s_n s)), [].
+                split; [reflexivity|]. left. lia.
+          -- intros i' a' [H|[]]. discriminate H.
+    - injection Sc as <- <-. cbn [serve_all is_send] in Sv. injection Sv as <- <- <-.
+      split; [right; exact Hidle'|]. intros i' a' [H|[]]. discriminate H.
+  Qed.
+
+  Lemma wpend_frame s s' w sent chunk applied :
+    wpend s w sent chunk applied -> wq_get i (c_writes (s_cl s')) = Some [w] ->
+    (forall x, s_mem s' i x = s_mem s i x) ->
+    (forall d', In (u, ChWrite, d') (s_log s') -> In (u, ChWrite, d') (s_log s)) ->
+    wpend s' w sent chunk applied.
+  Proof.
+    intros [P1 [P2 [P3 [P4 [P5 [P6 [P7 [P8 P9]]]]]]]] G Hm HL.
+    split; [exact G|]. repeat (split; [assumption|]). split.
+    - intros x. rewrite Hm. apply P8.
+    - intros d' Hd. exact (P9 d' (HL d' Hd)).
+  Qed.
+
+  Lemma winv_step s e s' os :
+    winv s -> no_write_to i e -> fresh s e = true -> sys_step true plan s e = (s', os) ->
+    winv s' /\ forall i' a', In (OWriteOk u i' a') os -> i' = i /\ a' = a /\ wdone s'.
+  Proof.
+    intros [[g B] P] Hnw Hf St.
+    destruct (wbase_step _ _ _ _ _ B St) as [g' B'].
+    assert (X : ((exists w sent chunk applied, wpend s' w sent chunk applied) \/ write_idle (s_cl s') i) /\
+                forall i' a', In (OWriteOk u i' a') os -> i' = i /\ a' = a /\ wdone s');
+      [|destruct X as [X1 X2]; split; [split; [exists g'; exact B'|exact X1]|exact X2]].
+    pose proof B as [[HC HL] [Hg Hu]].
+    destruct P as [[w [sent [chunk [applied P]]]]|Hidle].
+    2:{ destruct (idle_step _ _ _ _ _ _ _ (proj1 B) Hidle Hnw St) as [Hidle' _].
+        split; [right; exact Hidle'|].
+        destruct (sys_step_inv _ _ _ _ _ _ St) as [[_ [_ ->]]|[ce [c' [m' [lg' [n' [Ev [Sc [Sv _]]]]]]]]].
+        - intros ? ? [].
+        - destruct (no_wu_step u _ _ _ _ (proj1 HC) Hu (idle_no_wu _ _ _ _ HC Hg Hidle) Sc) as [_ N2].
+          intros i' a' Hin. destruct (N2 _ _ Hin). }
+    destruct (sys_step_inv _ _ _ _ _ _ St) as [[_ [-> ->]]|[ce [c' [m' [lg' [n' [Ev [Sc [Sv ->]]]]]]]]].
+    - split; [left; exists w, sent, chunk, applied; exact P|intros ? ? []].
+    - cbn [s_cl]. destruct (ce_split_w i ce) as [[p ->]|Hc].
+      + destruct (ev_of_deliver _ _ _ _ Ev Hf) as [v [Hlog Hact]].
+        destruct (active_write_in _ _ Hact) as [j [w1 [q1 [Hin1 Hv]]]].
+        pose proof P as [P1 [P2 [_ [_ [_ [_ [_ [_ P9]]]]]]]].
+        destruct (HL _ _ _ Hlog) as [_ [p' Ep]]. injection Ep as Ei _.
+        destruct HC as [L [_ [Wn Ww]]].
+        destruct (Ww j (w1 :: q1) w1 Hin1 (or_introl eq_refl)) as [_ [_ B1]].
+        assert (Ej : j = i) by (rewrite <- B1, Hv; lia). rewrite Ej in Hin1.
+        pose proof (wq_in_get _ _ _ Wn Hin1) as G1. rewrite P1 in G1. injection G1 as <- _.
+        rewrite P2 in Hv. subst v.
+        destruct (P9 _ Hlog) as [x [st [tl [E Hgood]]]]. injection E as ->.
+        exact (wpend_reply g s w sent chunk applied x st tl _ _ _ _ _ B P Hgood Sc Sv).
+      + destruct (wframe g i _ _ _ _ HC (Hc (ev_of_cond _ _ _ _ Ev Hnw)) Sc) as [F1 [F2 F3]].
+        split.
+        * destruct F1 as [F1|F1].
+          -- left. exists w, sent, chunk, applied. apply (wpend_frame s _ w sent chunk applied P); cbn [s_cl s_log s_mem].
+             ++ rewrite F1. exact (proj1 P).
+             ++ apply (serve_all_mem i _ _ _ _ _ _ _ _ Sv). intros v j rest Hin. exact (proj1 (F2 v j rest Hin)).
+             ++ intros d' Hd.
+                destruct (serve_all_log _ _ _ _ _ _ _ _ _ _ _ Sv Hd) as [H|[j [rest [p [H1 _]]]]]; [exact H|].
+                exfalso. destruct (F2 _ _ _ H1) as [_ [H|H]]; lia.
+          -- right. left. rewrite F1. reflexivity.
+        * intros i' a' Hin. exfalso. apply (F3 _ _ _ Hin). exact Hg.
+  Qed.
+
+  Lemma winv_run mid : forall s s2 tr2,
+    winv s -> Forall (no_write_to i) mid -> all_fresh true plan s mid = true ->
+    sys_run true plan s mid = (s2, tr2) ->
+    forall i' a', In (OWriteOk u i' a') tr2 ->
+      i' = i /\ a' = a /\ forall x, s_mem s2 i x = mwrite M0 i a dd i x.
+  Proof.
+    induction mid as [|e t IH]; intros s s2 tr2 HI Hnw Hf R; cbn [sys_run all_fresh] in R, Hf.
+    - injection R as <- <-. intros ? ? [].
+    - destruct (sys_step true plan s e) as [s1 o1] eqn:St. cbn [fst] in Hf.
+      destruct (sys_run true plan s1 t) as [s3 o3] eqn:Rt. injection R as <- <-.
+      apply andb_true_iff in Hf. destruct Hf as [Hf1 Hf2].
+      inversion Hnw as [|? ? Hn1 Hn2]; subst.
+      destruct (winv_step _ _ _ _ HI Hn1 Hf1 St) as [HI1 T1].
+      intros i' a' Hin. apply in_app_or in Hin. destruct Hin as [Hin|Hin].
+      + destruct (T1 _ _ Hin) as [E1 [E2 [Hidle Hm]]]. split; [exact E1|]. split; [exact E2|].
+        destruct HI1 as [[g1 [HS1 _]] _].
+        intros x. rewrite (idle_run _ _ _ _ _ _ _ HS1 Hidle Hn2 Rt x). apply Hm.
+      + exact (IH _ _ _ HI1 Hn2 Hf2 Rt _ _ Hin).
+  Qed.
+End WriteExact.
+
+Theorem write_exact : forall plan m0 pre s1 tr1 i a d fl mid s2 tr2,
+  sys_run true plan (sys_init m0) pre = (s1, tr1) ->
+  wf_event (EWrite i a d fl) -> Forall wf_sevent mid ->
+  write_idle (s_cl s1) i ->
+  Forall (no_write_to i) mid ->
+  all_fresh true plan s1 (SOp (EWrite i a d fl) :: mid) = true ->
+  sys_run true plan s1 (SOp (EWrite i a d fl) :: mid) = (s2, tr2) ->
+  forall i' a', In (OWriteOk (c_next (s_cl s1)) i' a') tr2 ->
+    i' = i /\ a' = a /\ (forall x, s_mem s2 i x = mwrite (s_mem s1) i a d i x).
+Proof.
+  intros plan m0 pre s1 tr1 i a d fl mid s2 tr2 Hpre Hwf _ Hidle Hnw Hf Hrun i' a' Hin.
+  destruct Hwf as [Hi [Ha [Had Hb]]].
+  destruct (reach_run _ _ _ _ _ _ (reach_init m0) Hpre) as [g [HS _]].
+  cbn [sys_run all_fresh] in Hrun, Hf.
+  destruct (sys_step true plan s1 (SOp (EWrite i a d fl))) as [sa oa] eqn:St.
+  destruct (sys_run true plan sa mid) as [sb ob] eqn:Rt. injection Hrun as <- <-.
+  cbn [fst] in Hf. apply andb_true_iff in Hf. destruct Hf as [_ Hf].
+  set (u := c_next (s_cl s1)) in *.
+  assert (Ewf : wf_eventb (EWrite i a d fl) = true).
+  { unfold wf_eventb. apply andb_true_iff. split; [lia|apply bytesb_spec; exact Hb]. }
+  pose proof HS as [[L _] HL].
+  pose proof (write_first_step _ i a d fl Hidle L Ewf) as Sc. fold u in Sc.
+  destruct (reach_step _ _ _ _ _ _ HS St) as [g' [HS' [A N]]].
+  destruct (sys_step_inv _ _ _ _ _ _ St) as [[Ev _]|[ce [c' [m' [lg' [n' [Ev [Sc' [Sv Es]]]]]]]]];
+    [discriminate Ev|].
+  cbn [ev_of] in Ev. injection Ev as <-. rewrite Sc in Sc'.
+  apply pair_equal_spec in Sc'. destruct Sc' as [<- <-].
+  rewrite serve_all_wpkt in Sv by (try (right; reflexivity); lia).
+  assert (Hsv : (forall x, m' i x = mwrite (s_mem s1) i a
+                    ([] ++ (if plan (s_n s1) =? 0 then firstn WCHUNK d else [])) i x) /\
+                forall d', In (u, ChWrite, d') lg' ->
+                  In (u, ChWrite, d') (s_log s1) \/ wgood i a (plan (s_n s1) =? 0) d').
+  { revert Sv. destruct (plan (s_n s1) =? 0) eqn:Ep; intros Sv; injection Sv as <- <- <-.
+    - split; [intros x; reflexivity|]. intros d' Hd. apply in_app_or in Hd.
+      destruct Hd as [Hd|[Hd|[]]]; [left; exact Hd|right]. injection Hd as <-.
+      exists a, 0, []. split; [reflexivity|]. right. split; [lia|]. right. split; reflexivity.
+    - split; [intros x; cbn [app]; symmetry; apply mwrite_nil|]. intros d' Hd. apply in_app_or in Hd.
+      destruct Hd as [Hd|[Hd|[]]]; [left; exact Hd|right]. injection Hd as <-.
+      exists a, (plan (s_n s1)), []. split; [reflexivity|]. left. lia. }
+  destruct Hsv as [Hm' Hlg'].
+  set (w0 := mkW u i a a (skipn WCHUNK d) (zlen (firstn WCHUNK d))) in *.
+  assert (HI : winv i a u d (s_mem s1) sa).
+  { subst sa. split.
+    - exists g'. split; [exact HS'|]. split; [|cbn [s_cl c_next]; lia].
+      destruct HS' as [[_ [_ [_ Ww]]] _]. cbn [s_cl c_writes] in Ww.
+      destruct (Ww i [w0] w0) as [_ [_ B]]; [|left; reflexivity|exact B].
+      apply wq_get_in. rewrite wq_get_set, Z.eqb_refl. reflexivity.
+    - left. exists w0, [], (firstn WCHUNK d), (plan (s_n s1) =? 0).
+      unfold wpend. cbn [s_cl s_mem s_log c_writes].
+      split; [rewrite wq_get_set, Z.eqb_refl; reflexivity|].
+      cbn [w0 w_uid w_addr w_cur w_add w_rest].
+      split; [reflexivity|]. split; [reflexivity|]. split; [unfold zlen; cbn [length]; lia|].
+      split; [reflexivity|]. split; [cbn [app]; symmetry; apply firstn_skipn|].
+      split; [apply chunk_pos|]. split; [exact Hm'|].
+      intros d' Hd. destruct (Hlg' d' Hd) as [H|H]; [|exact H].
+      destruct (HL _ _ _ H) as [B _]. unfold u in B. lia. }
+  apply in_app_or in Hin. destruct Hin as [Hin|Hin].
+  { destruct Hin as [H|[H|[]]]; discriminate H. }
+  exact (winv_run plan i a u d (s_mem s1) Ha Had mid sa sb ob HI Hnw Hf Rt i' a' Hin).
+Qed.
 Print Assumptions read_exact.
+Print Assumptions write_exact.
